@@ -39,14 +39,41 @@ def build(rng, tier):
         inst = f"stress_{j}"
         inp = {0: [(k,) for k in range(16)]}
         cases.append(engcheck.Case("stress", inst, [f"eng new {inst} stress par"] + engcheck.std_history(inst, "stress", inp)[1:], {"inp": inp, "kind": "par-stress"}))
+    # many workers deriving the same not-yet-present LATTICE key at the same time (the row of a key is created under the per-key mutex after
+    # an unlocked look-up: a worker that waited for the mutex must find the row the winner created), under seeded perturbation of the
+    # concurrent index inserts; first iteration (fresh keys from inputs) and later iterations (fresh keys derived from the lattice itself)
+    for kind in ("max", "min"):
+        sl = {"rels": [{"arity": 2}, {"arity": 2, "lat": kind}, {"arity": 2, "lat": kind}],
+              "rules": [{"heads": [(1, [("var", 0), ("var", 1)])], "body": [("cl", 0, [("v", 0), ("v", 1)], [])]},
+                        {"heads": [(2, [("add", ("var", 0), 100), ("var", 1)])], "body": [("cl", 1, [("v", 0), ("v", 1)], []), ("cl", 0, [("v", 0), ("v", 2)], [])]}]}
+        pid = f"stresslat_{kind}"
+        progs[pid] = sl
+        mods.append((pid, eng.rs_module(pid, sl, macro="ascent_par")))
+        for j in range(8 if tier == "quick" else 80):
+            inst = f"{pid}_{j}"
+            r2 = rng.fork(inst)
+            inp = {0: [(k, y) for y in range(60) for k in range(4)]}
+            t = r2.choice([4, 8, 16])
+            ops = [f"eng perturb {1 + r2.below(10 ** 9)}", f"eng new {inst} {pid} par {t}"] + engcheck.load_ops(inst, inp) + [f"eng run {inst}", f"eng dump {inst}", "eng perturb 0"]
+            cases.append(engcheck.Case(pid, inst, ops, {"inp": inp, "kind": "par-lattice-stress", "dump_at": -2}))
     return progs, mods, cases
 
 
 def oracle(c, p, out):
-    dump = out[-1]
+    dump = out[c.meta.get("dump_at", -1)]
     if not dump.startswith("r0:"): return f"run/dump failed: {dump}"
     _, mult = engcheck.dump_sets(dump)
     for rel in range(len(p["rels"])):
+        if p["rels"][rel].get("lat"):
+            # one row per key (beyond duplicate keys the caller put in)
+            per_key, inp_keys = {}, {}
+            for t, m in mult.get(rel, {}).items():
+                k = eng.split_key(t); per_key[k] = per_key.get(k, 0) + m
+            for t in c.meta["inp"].get(rel, []):
+                k = eng.split_key(eng.sx_tuple(t)); inp_keys[k] = inp_keys.get(k, 0) + 1
+            for k, m in per_key.items():
+                if m != max(1, inp_keys.get(k, 0)): return f"lattice r{rel} holds {m} rows for key ({k})"
+            continue
         inp_m = {}
         for t in c.meta["inp"].get(rel, []):
             k = eng.sx_tuple(t); inp_m[k] = inp_m.get(k, 0) + 1
@@ -63,4 +90,5 @@ def check(tier, replay=None):
                                  build=build, oracle=oracle, what="row multiplicities of compiled programs",
                                  rule="generated programs (serial ascent! and ascent_par! twins) x inputs incl. duplicate rows and rows that are themselves "
                                       "derivable; after run() every input tuple must occur exactly as often as the caller inserted it and every other tuple once; "
-                                      "non-trivial = all cases (diamond / symmetric rules derive tuples repeatedly)")
+                                      "non-trivial = all cases (diamond / symmetric rules derive tuples repeatedly); plus parallel stress programs: 16 seeds x 400 values deriving the same tuples, "
+                                      "and 60 workers per fresh lattice key under seeded perturbation (exactly one row per lattice key)")
